@@ -350,7 +350,8 @@ def gen_history(cs, templates, tier, force=None):
             sl = sorted(slots)[cs.choose(len(slots), 'delslot')]
             ops.append({'op': 'delete', 'slot': sl})
         elif kind == 'mc':
-            ops.append({'op': 'mc', 'iterations': 2 + cs.choose(2, 'mcit'), 'W': 1 + cs.choose(2, 'mcw')})
+            ops.append({'op': 'mc', 'iterations': 2 + cs.choose(2, 'mcit'), 'W': 1 + cs.choose(2, 'mcw'),
+                        'fail': [None, None, None, 'all_iterations', 'no_settings_file'][cs.choose(5, 'mcfail')]})
         elif kind == 'fault':
             ops.append({'op': 'fault', 'kind': FAULTS[cs.choose(len(FAULTS), 'fkind')],
                         'at': FAULT_AT[cs.choose(len(FAULT_AT), 'fat')]})
@@ -1005,8 +1006,15 @@ class Exec:
         os.makedirs(d, exist_ok=True)
         with K._real['open'](os.path.join(d, 'base.txt'), 'w') as f:
             f.write(WL.HIP_BASE)
-        with K._real['open'](os.path.join(d, 'settings.txt'), 'w') as f:
-            f.write(f"INPUT, Reservoir Temperature, uniform, 130, 170\nOUTPUT, Producible Heat (reservoir)\nITERATIONS, {op['iterations']}\n")
+        rng_ = '130, 170' if op.get('fail') != 'all_iterations' else '1100, 1200'      # (above the allowed maximum: every iteration fails)
+        if op.get('fail') == 'no_settings_file':
+            try:
+                K._real['os.unlink'](os.path.join(d, 'settings.txt'))
+            except OSError:
+                pass
+        else:
+            with K._real['open'](os.path.join(d, 'settings.txt'), 'w') as f:
+                f.write(f"INPUT, Reservoir Temperature, uniform, {rng_}\nOUTPUT, Producible Heat (reservoir)\nITERATIONS, {op['iterations']}\n")
         k.cfg['cpu_count'] = op['W']
         k.record('op:mc', f"{op['iterations']} iterations W={op['W']}")
         try:
@@ -1018,12 +1026,12 @@ class Exec:
                     req_ = MonteCarloRequest(SimulationProgram.HIP_RA_X, Path(d, 'base.txt'), Path(d, 'settings.txt'), Path(d, 'MC_Result.txt'))
                 GeophiresMonteCarloClient().get_monte_carlo_result(req_)
                 del req_
-            self.probe('mc_between_runs')
+            self.probe('mc_between_runs' if not op.get('fail') else 'mc_expected_to_fail_succeeded')
         except BaseException as e:  # noqa: BLE001
             if isinstance(e, (K.SimFatal, K.ProcKilled)):
                 raise
             op['_failed'] = True
-            self.probe('mc_failed')
+            self.probe('mc_failed' if not op.get('fail') else 'mc_failing_request_between_runs')
         self.check_ambient(op, argv_clause=True)
 
 
